@@ -32,6 +32,9 @@ CHECKS = {
  "C11": ("exploration", "taint-style monitor: unique random secrets, full request capture at every model host (URL, headers, body; raw / URL-decoded / base64), clear-text sniffing on TLS listeners, log scanning",
          "220 seeded topologies per quick run (3 k thorough) of 2-5 hosts on distinct loopback addresses with distinct credentials (upstream, mirror, second registry, blob-redirect target, external-layer host, separate token endpoints) x auth schemes x plain / pinned TLS / insecure TLS x per-repository auth x extra and malformed challenges; 17 operations per topology incl. cross-registry copies with referrers and external layers; every request every host received is scanned for every other host's secrets, TLS listeners record clear text, trace-level library logs and regctl -v trace output are scanned.",
          "A host may see the secrets of Y only if it is Y or the token endpoint Y itself named. Leaks are fingerprinted by mechanism (after a challenge from the receiver / unsolicited), owner role, receiver role and request kind; the credential hand-over to challenging redirect targets / external hosts is a recorded known finding.", "§3 C11"),
+ "C01": ("exploration", "two-ended byte-stream monitor: the harness chooses the served bytes, accumulates what the caller received and applies 'clean EOF => digest and size match'",
+         "≈165 k reads per quick run: blob.NewReader over scripted readers exhaustively for content lengths 0..20 (0..40 thorough: every truncation offset, a bit flip per byte, extra bytes, substitution, wrong stated size x 4 reader return styles x 9 buffer sequences x sha256/sha512 x size known/unknown, each with rewind and re-read), sampled to 70 KB; 2.5 k registry reads with wrong Content-Length, 0-4 mid-body drops and five resume behaviours, redirects, inline data, host concurrency 1/3/8; 400 corrupted layout blobs.",
+         "Clean completion = the final error is exactly io.EOF (what io.ReadAll / io.Copy test). A read that only returns once the harness' 30 s context expired counts as 'neither completed nor failed' (logical criterion: context state at return).", "§3 C01"),
 }
 NOT_APPLICABLE = {}
 
